@@ -123,11 +123,23 @@ fn build<L: flussab_aiger::Lit>(g: &Graph) -> Aig<L> {
 
 fn run_t<L: flussab_aiger::Lit + std::fmt::Display>(g: &Graph, opts: u8, query: &[u64], lt: u8) -> RenRes {
     let aig = build::<L>(g);
-    let cfg = RenumberConfig::default()
-        .trim(opts & 1 != 0)
-        .structural_hash(opts & 2 != 0)
-        .const_fold(opts & 4 != 0);
-    match Renumber::renumber_aig(cfg, &aig) {
+    let mk_cfg = || {
+        RenumberConfig::default()
+            .trim(opts & 1 != 0)
+            .structural_hash(opts & 2 != 0)
+            .const_fold(opts & 4 != 0)
+    };
+    let cfg = mk_cfg();
+    // the other public entry point: Renumber::new builds the same renumbering without assembling the
+    // output circuit; verdict, literal map and gate list must be those of renumber_aig
+    let by_new = Renumber::new(mk_cfg(), &aig);
+    let main = Renumber::renumber_aig(cfg, &aig);
+    match (&main, &by_new) {
+        (Err(_), Ok(_)) => return RenRes::Err("Renumber::new ACCEPTS a graph that renumber_aig rejects", 0),
+        (Ok(_), Err(_)) => return RenRes::Err("Renumber::new REJECTS a graph that renumber_aig accepts", 0),
+        _ => {}
+    }
+    match main {
         Err(AigStructureError::LitAlreadyDefined { lit }) => RenRes::Err("LitAlreadyDefined", lit.code() as u64),
         Err(AigStructureError::LitNotDefined { lit }) => RenRes::Err("LitNotDefined", lit.code() as u64),
         Err(AigStructureError::FoundCycle { lit }) => RenRes::Err("FoundCycle", lit.code() as u64),
@@ -137,6 +149,16 @@ fn run_t<L: flussab_aiger::Lit + std::fmt::Display>(g: &Graph, opts: u8, query: 
                 .iter()
                 .map(|&q| (q, ren.lit_map().get(L::from_code(q as usize)).map(|m| m.code() as u64)))
                 .collect();
+            let new_agrees = match &by_new {
+                Ok(n) => {
+                    n.and_gates() == &o.and_gates[..]
+                        && query.iter().all(|&q| {
+                            n.lit_map().get(L::from_code(q as usize)).map(|m| m.code())
+                                == ren.lit_map().get(L::from_code(q as usize)).map(|m| m.code())
+                        })
+                }
+                Err(_) => false,
+            };
             // the map's other accessors must agree with get()
             let accessors_agree = query.iter().zip(&map).all(|(&q, m)| {
                 ren.lit_map().contains_key(L::from_code(q as usize)) == m.1.is_some()
@@ -210,7 +232,7 @@ fn run_t<L: flussab_aiger::Lit + std::fmt::Display>(g: &Graph, opts: u8, query: 
                 justice: o.justice_properties.iter().map(|j| j.iter().map(c).collect()).collect(),
                 fair: o.fairness_constraints.iter().map(c).collect(),
                 ands: o.and_gates.iter().map(|g| [c(&g.inputs[0]), c(&g.inputs[1])]).collect(),
-                symbols_same: o.symbols == aig.symbols && accessors_agree,
+                symbols_same: o.symbols == aig.symbols && accessors_agree && new_agrees,
                 comment_same: o.comment == aig.comment,
                 map,
                 binary_roundtrip,
